@@ -6,7 +6,9 @@
 (*            "count" main is `L: inc cnt0 ; brr -2`                (never idle)                          *)
 (*            handler at H: `inc cnt1 ; reti`                                                            *)
 (* one interrupt line fed by two timers (TimerOps at a small limb base, all modes), global and line      *)
-(* enables.  Property: for every start configuration, every cycle budget n <= N and every way of slicing  *)
+(* enables; with Family = "audio" additionally one audio port (Btdmp at a small capacity: queue, phase,   *)
+(* period, flags; its interrupt feeds the same line, its frames are part of the observation), whose      *)
+(* GetMaxSkip / Skip take part in CoreTiming::Skip exactly like the timers'.  Property: for every start configuration, every cycle budget n <= N and every way of slicing  *)
 (* n into calls, RunAsCoded over the slices and n single Cycles give the same observation (program       *)
 (* position, counters, enables, pending bits, latch, complete timer state incl. the MMIO mirror, number  *)
 (* of interrupts raised).                                                                                 *)
@@ -14,9 +16,16 @@ EXTENDS Naturals, Sequences, TLC
 CONSTANTS TB,                 \* limb base of the timers
           N,                  \* largest cycle budget
           FixPending,         \* TRUE: the repaired loop (no skip while an interrupt signal is latched)
-          FixSkipZero         \* TRUE: the repaired Timer::Skip(0)
+          FixSkipZero,        \* TRUE: the repaired Timer::Skip(0)
+          Family,             \* "timers": all timer configurations, audio port off; "audio": the audio port in every state
+          FixAudioSkip        \* TRUE: the repaired Btdmp::Skip (phase overrun / ticks = 0).  (With FALSE the invariant holds as
+                              \* well: a phase at or beyond the period cannot survive the first cycle of a call, which is always
+                              \* executed in full -- inside the emulator that defect needs SetTransmitPeriod, see C16.)
 
 T == INSTANCE TimerOps WITH B <- TB, FixedSkipZero <- FixSkipZero
+ACap == 3
+A == INSTANCE Btdmp WITH Cap <- ACap, TW <- 8, ResetPeriod <- 4, FixedSkipOverrun <- FixAudioSkip, Vals <- {}, Periods <- {}, Clocks <- {},
+                         K <- 0, G <- 0, PhaseKept <- FALSE, s <- 0, ev <- 0, outc <- 0, gin <- 0, gout <- 0, gpad <- 0
 
 \* machine: pc in {"L", "L2", "H", "H2"}, prog, idle, ie, im, ip, lat, ret (return position), c0, c1, tm (2 timers), irqs
 Exec(m) ==
@@ -29,7 +38,16 @@ Latch(m) == IF m.lat = 1 THEN [m EXCEPT !.ip = 1, !.lat = 0] ELSE m
 Enter(m) == IF m.ie = 1 /\ m.im = 1 /\ m.ip = 1
             THEN [m EXCEPT !.ip = 0, !.ie = 0, !.ret = m.pc, !.pc = "H", !.idle = FALSE] ELSE m
 ApplyT(m, i, r) == [m EXCEPT !.tm[i] = r.t, !.lat = IF r.irq > 0 THEN 1 ELSE @, !.irqs = (@ + r.irq) % 8]
-TickAll(m) == LET m1 == ApplyT(m, 1, T!TickOp(m.tm[1])) IN ApplyT(m1, 2, T!TickOp(m1.tm[2]))
+\* the audio port's callbacks: interrupts feed the line, frames are remembered (observation)
+RECURSIVE ApplyA(_, _, _)
+ApplyA(m, evs, j) == IF j > Len(evs) THEN m
+                     ELSE IF evs[j] = A!IRQ THEN ApplyA([m EXCEPT !.lat = 1, !.irqs = (@ + 1) % 8], evs, j + 1)
+                     ELSE ApplyA([m EXCEPT !.fr = Append(@, <<evs[j][2], evs[j][3]>>)], evs, j + 1)
+AudioRes(m, r) == ApplyA([m EXCEPT !.bt = r.s, !.bad = @ \/ r.out # "ok"], r.ev, 1)
+\* CoreTiming::Tick in registration order: timer0, timer1, audio port
+TickAll(m) == LET m1 == ApplyT(m, 1, T!TickOp(m.tm[1]))
+                  m2 == ApplyT(m1, 2, T!TickOp(m1.tm[2]))
+              IN  AudioRes(m2, A!TickOp(m2.bt))
 Cycle(m) == TickAll(Enter(Exec(Latch(m))))
 
 RECURSIVE CycleN(_, _)
@@ -40,9 +58,10 @@ WNat(w) == w[1] * TB + w[2]
 NatW(n) == <<n \div TB, n % TB>>
 Hor(t) == LET h == T!Horizon(t) IN IF h = T!INF THEN 1000 ELSE WNat(h)
 Min(a, b) == IF a <= b THEN a ELSE b
+HorA(b) == LET h == A!Horizon(b) IN IF h = A!INF THEN 1000 ELSE h
 SkipAll(m, maxk) ==
-    LET k == Min(maxk, Min(Hor(m.tm[1]), Hor(m.tm[2])))
-    IN  [k |-> k, m |-> [m EXCEPT !.tm = <<T!SkipOp(m.tm[1], NatW(k)).t, T!SkipOp(m.tm[2], NatW(k)).t>>]]
+    LET k == Min(maxk, Min(Min(Hor(m.tm[1]), Hor(m.tm[2])), HorA(m.bt)))
+    IN  [k |-> k, m |-> AudioRes([m EXCEPT !.tm = <<T!SkipOp(m.tm[1], NatW(k)).t, T!SkipOp(m.tm[2], NatW(k)).t>>], A!SkipOp(m.bt, k))]
 
 \* Interpreter::Run(cycles) as coded: loop variable i
 RECURSIVE RunFrom(_, _, _)
@@ -72,15 +91,28 @@ TimerStates1 == {[c |-> c, s |-> s, m |-> md, p |-> p, u |-> 1, mi |-> c, sc |->
                     c \in T!WideSet, s \in T!WideSet, md \in 0 .. 3, p \in 0 .. 1}
 TimerStates2 == {[c |-> c, s |-> s, m |-> md, p |-> 0, u |-> 0, mi |-> <<0, 0>>, sc |-> 0] :
                     c \in {<<0, 0>>, <<0, 1>>, <<1, 0>>}, s \in {<<0, 0>>, <<0, 1>>}, md \in {0, 1}}
-Starts == {[pc |-> "L", prog |-> pr, idle |-> FALSE, ie |-> ie, im |-> im, ip |-> 0, lat |-> lat, ret |-> "L",
-            c0 |-> 0, c1 |-> 0, tm |-> <<t1, t2>>, irqs |-> 0] :
-              pr \in {"idle", "count"}, ie \in 0 .. 1, im \in 0 .. 1, lat \in 0 .. 1, t1 \in TimerStates1, t2 \in TimerStates2}
+\* audio port states: every queue over two sample values up to the capacity, every phase incl. phases at or beyond the
+\* period, flags as the code keeps them
+Queues == UNION {[1 .. n -> {1, 2}] : n \in 0 .. ACap}
+AudioStates == {[q |-> q, tm |-> t, pd |-> p, en |-> e, em |-> IF q = <<>> THEN 1 ELSE 0, fu |-> IF Len(q) = ACap THEN 1 ELSE 0, cc |-> 0] :
+                    q \in Queues, t \in 0 .. 3, p \in 1 .. 3, e \in 0 .. 1}
+AudioOff == [A!ResetState EXCEPT !.pd = 4]
+TimerStatesA == {[c |-> c, s |-> <<0, 1>>, m |-> md, p |-> 0, u |-> 1, mi |-> c, sc |-> 0] : c \in {<<0, 0>>, <<0, 1>>, <<1, 0>>}, md \in {0, 1, 2}}
+TimerStopped == [c |-> <<0, 0>>, s |-> <<0, 0>>, m |-> 0, p |-> 0, u |-> 0, mi |-> <<0, 0>>, sc |-> 0]
+Mk(pr, ie, im, lat, t1, t2, b) ==
+    [pc |-> "L", prog |-> pr, idle |-> FALSE, ie |-> ie, im |-> im, ip |-> 0, lat |-> lat, ret |-> "L",
+     c0 |-> 0, c1 |-> 0, tm |-> <<t1, t2>>, irqs |-> 0, bt |-> b, fr |-> <<>>, bad |-> FALSE]
+Starts == IF Family = "timers"
+          THEN {Mk(pr, ie, im, lat, t1, t2, AudioOff) :
+                  pr \in {"idle", "count"}, ie \in 0 .. 1, im \in 0 .. 1, lat \in 0 .. 1, t1 \in TimerStates1, t2 \in TimerStates2}
+          ELSE {Mk(pr, ie, im, lat, t1, TimerStopped, b) :
+                  pr \in {"idle", "count"}, ie \in 0 .. 1, im \in 0 .. 1, lat \in 0 .. 1, t1 \in TimerStatesA, b \in AudioStates}
 
 VARIABLE vM
 \* the start configurations are fanned out from a few seed states so that all workers share the work
-Seeds == {[m EXCEPT !.pc = "seed"] : m \in {x \in Starts : x.tm[1] = CHOOSE t \in TimerStates1 : TRUE}}
+Seeds == {[m EXCEPT !.pc = "seed"] : m \in {x \in Starts : x.tm[1] = (CHOOSE y \in Starts : TRUE).tm[1]}}
 Init == vM \in Seeds
-Next == vM.pc = "seed" /\ vM' \in {x \in Starts : x.prog = vM.prog /\ x.ie = vM.ie /\ x.im = vM.im /\ x.lat = vM.lat /\ x.tm[2] = vM.tm[2]}
+Next == vM.pc = "seed" /\ vM' \in {x \in Starts : x.prog = vM.prog /\ x.ie = vM.ie /\ x.im = vM.im /\ x.lat = vM.lat /\ x.tm[2] = vM.tm[2] /\ x.bt = vM.bt}
 
 SlicingInvariant ==
     vM.pc # "seed" =>
